@@ -20,7 +20,8 @@ WIDE = {'ID': 'IW', 'fsc': 'FSC', 'ssc': 'SSC', 'fl': ['V%d-A' % i for i in rang
 MEF_LADDER = [0, 800, 2500, 8000, 25000, 80000, 240000]
 UNITS_OK = ['Channel', 'channel', 'CHANNEL', 'RFI', 'rfi', 'a.u.', 'A.U.', 'au', 'AU', 'MEF', 'mef', 'Mef', ' MEF ']
 
-SAMPLE_FAULTS = ['file_not_found', 'enoent_at_open', 'few_events', 'gate_fraction_neg', 'gate_fraction_big',
+SAMPLE_FAULTS = ['file_not_found', 'enoent_at_open', 'eacces_at_open', 'path_is_directory', 'path_through_file',
+                 'case_variant_missing', 'few_events', 'gate_fraction_neg', 'gate_fraction_big',
                  'bad_units', 'beads_failed', 'beads_no_mef', 'no_std_curve', 'other_instrument', 'other_amp_type',
                  'other_voltage']
 BEAD_FAULTS = ['file_not_found', 'few_events', 'gate_fraction_big', 'gate_fraction_neg', 'unequal_mef']
@@ -77,6 +78,12 @@ def file_spec(desc):
                     x = np.clip(x, 0.0, None)                         # exact zeros, no negatives
                 col[nm] = x
         col[inst['time']] = np.arange(N) * 2 + 5
+        if dt != 'I' and desc.get('overrange'):
+            # floating point data may exceed the nominal range (compensation, area signals)
+            for nm in sc_names[:2]:
+                jj = g.choice(N, size=max(2, N // 40), replace=False)
+                col[nm] = np.array(col[nm])
+                col[nm][jj] = g.uniform(1100, 4000, len(jj))
         if dt == 'I':
             # a few saturated events in every scatter and fluorescence channel
             k = max(1, N // 60)
@@ -100,7 +107,7 @@ def file_spec(desc):
         events = ev.tolist()
     else:
         widths = [32] * D
-        ranges = [262144] * D
+        ranges = [(1024 if (desc.get('overrange') and nm in sc_names) else 262144) for nm in names]
         events = [[float(np.float32(v)) for v in row] for row in ev.tolist()]
     amp = desc.get('amp', 'log')
     pne = [('4,1' if (nm in fl_names and amp == 'log' and dt == 'I') else '0,0') for nm in names]
@@ -131,6 +138,9 @@ def gen_experiment(rng, faults=True, max_samples=5, max_beads=2, small=False, pl
     insts = copy.deepcopy(INSTRUMENTS[:n_inst])
     if not plan and rng.chance(0.3):
         insts.append(copy.deepcopy(SIBLING))
+    if not plan:
+        for i in insts:
+            i['cell_style'] = rng.choice([0, 0, 1, 2, 3])
     if wide:
         insts = [copy.deepcopy(WIDE)]
     files = {}
@@ -154,7 +164,8 @@ def gen_experiment(rng, faults=True, max_samples=5, max_beads=2, small=False, pl
         fl = inst['fl']
         npop = rng.choice([5, 6])
         mef_ch = [fl[0]] if (rng.chance(0.6) or bp) else list(fl[:2])
-        row = {'ID': 'B%d' % (k + 1), 'Instrument ID': inst['ID'], 'Gate Fraction': rng.choice([0.5, 0.65, 0.8]),
+        bid = 'B%d' % (k + 1) if (plan or rng.chance(0.75)) else rng.choice(['beads.%d' % k, 'B%d v1.2' % k])
+        row = {'ID': bid, 'Instrument ID': inst['ID'], 'Gate Fraction': rng.choice([0.5, 0.65, 0.8]),
                'Clustering Channels': ', '.join(mef_ch if rng.chance(0.7) else [fl[0]]), 'fault': None, 'mef': {}}
         for c in mef_ch:
             vals = [str(v) for v in MEF_LADDER[:npop]]
@@ -190,7 +201,10 @@ def gen_experiment(rng, faults=True, max_samples=5, max_beads=2, small=False, pl
         inst = insts[sp['inst']] if sp else rng.choice(insts)
         fl = inst['fl']
         dt = rng.wchoice([('I', 7), ('F', 3)])
-        row = {'ID': 'S%d' % (k + 1), 'Instrument ID': inst['ID'], 'Beads ID': None,
+        sid = 'S%d' % (k + 1)
+        if not plan and rng.chance(0.3):
+            sid = rng.choice(['pH7.%d' % k, '0.5mM rep%d' % k, 'S%d.0' % (k + 1), 'ctrl %d' % k, 'a.b.c%d' % k])
+        row = {'ID': sid, 'Instrument ID': inst['ID'], 'Beads ID': None,
                'Gate Fraction': rng.choice([0.2, 0.5, 0.65, 0.9, 1.0]), 'units': {}, 'fault': None,
                'Note': rng.choice(['ctrl', 'x', 'rep %d' % k])}
         # healthy beads on the same instrument with matching settings
@@ -210,6 +224,9 @@ def gen_experiment(rng, faults=True, max_samples=5, max_beads=2, small=False, pl
                 if u == 'MEF':
                     row['Beads ID'] = gb['ID']
         f = rng.choice(SAMPLE_FAULTS) if (faults and rng.chance(0.35)) else None
+        if f is not None and good_beads and rng.chance(0.4):
+            # faults that only exist relative to a calibration are the rarer context: give them weight when they can occur
+            f = rng.choice(['other_amp_type', 'other_voltage', 'no_std_curve'])
         if sp:
             f = sp['fault']
         n = rng.choice([800, 1000]) if not small else 760
@@ -228,6 +245,8 @@ def gen_experiment(rng, faults=True, max_samples=5, max_beads=2, small=False, pl
         if f == 'other_instrument' and not [b for b in exp['beads'] if b['fault'] is None and b['mef']
                                             and b['Instrument ID'] != inst['ID']]:
             f = 'file_not_found'
+        if f == 'case_variant_missing' and not [x for x in exp['samples'] if x['fault'] is None and x['File Path'] in files]:
+            f = 'path_is_directory'
         if f == 'few_events':
             n = rng.choice([50, 399])
         elif f == 'gate_fraction_neg':
@@ -293,10 +312,21 @@ def gen_experiment(rng, faults=True, max_samples=5, max_beads=2, small=False, pl
         row['File Path'] = new_file('cells', inst, n, datatype=dt, volt=volt, amp=amp, clip0=bool(dt == 'F' and rng.chance(0.4)),
                                     sgain=rng.choice([None, None, 2.0, 0.5]), res256=bool(f is None and rng.chance(0.2)
                                                                                         and not good_beads),
+                                    overrange=bool(dt == 'F' and rng.chance(0.4)),
                                     version=rng.choice(['FCS2.0', 'FCS3.0', 'FCS3.1']),
                                     byteord=rng.choice(['1,2,3,4', '4,3,2,1']))
         if f == 'file_not_found':
             row['File Path'] = 'nowhere/none_%d.fcs' % k
+        elif f == 'path_is_directory':
+            exp.setdefault('dirs', []).append('plate_%d' % k)
+            row['File Path'] = 'plate_%d' % k                       # a folder where a file is expected
+        elif f == 'path_through_file':
+            row['File Path'] = row['File Path'] + '/inner.fcs'       # a path that runs through a regular file
+        elif f == 'case_variant_missing':
+            # an existing file of an earlier row, spelled in another letter case (missing on a case-sensitive disk)
+            prevp = [x['File Path'] for x in exp['samples'] if x['fault'] is None and x['File Path'] in files][-1]
+            del files[row['File Path']]
+            row['File Path'] = prevp.upper() if prevp.upper() != prevp else prevp.lower()
         row['fault'] = f
         exp['samples'].append(row)
     if rng.chance(0.5) and not plan:
@@ -307,8 +337,12 @@ def gen_experiment(rng, faults=True, max_samples=5, max_beads=2, small=False, pl
 def tables(exp):
     """pandas tables as read_table would return them (index = ID)."""
     import pandas as pd
+    def cell(names, style):
+        # users type these lists by hand: "A, B", "A,B", " A , B "
+        return {None: ', '.join(names), 0: ', '.join(names), 1: ','.join(names), 2: ' ' + ' , '.join(names) + ' ',
+                3: ', '.join(names) + ' '}[style]
     inst = pd.DataFrame([{'ID': i['ID'], 'Forward Scatter Channel': i['fsc'], 'Side Scatter Channel': i['ssc'],
-                          'Fluorescence Channels': ', '.join(i['fl']), 'Time Channel': i['time']}
+                          'Fluorescence Channels': cell(i['fl'], i.get('cell_style')), 'Time Channel': i['time']}
                          for i in exp['instruments']]).set_index('ID')
     all_fl = []
     for i in exp['instruments']:
